@@ -60,6 +60,7 @@ type PathSample struct {
 type Report struct {
 	Dir       string            `json:"dir"`
 	LoadS     float64           `json:"load_s"`
+	BrokenFiles []string        `json:"broken_files"`
 	InitSteps int64             `json:"init_steps"`
 	Solver    string            `json:"solver"`
 	Harnesses []*HarnessReport  `json:"harnesses"`
@@ -122,21 +123,46 @@ func main() {
 		BuildFlags: []string{"-tags=" + *tags},
 		Env:        append(os.Environ(), "GOFLAGS=-mod=mod", "GOPROXY=off"),
 	}
-	pkgs, err := packages.Load(cfg, ".")
-	if err != nil {
-		fail(err)
-	}
-	nerr := 0
-	packages.Visit(pkgs, nil, func(p *packages.Package) {
-		for _, e := range p.Errors {
-			if nerr < 20 {
-				fmt.Fprintf(os.Stderr, "HARNESS-BROKEN %s\n", e)
-			}
-			nerr++
+	// A harness file that no longer type-checks against the tree (API drift)
+	// is dropped and reported as HARNESS-BROKEN; the remaining harness files
+	// still run.  Errors outside the harness files are fatal.
+	var pkgs []*packages.Package
+	for attempt := 0; ; attempt++ {
+		var err error
+		pkgs, err = packages.Load(cfg, ".")
+		if err != nil {
+			fail(err)
 		}
-	})
-	if nerr > 0 {
-		fail(fmt.Errorf("package load: %d errors", nerr))
+		nerr := 0
+		brokenNow := map[string]bool{}
+		foreign := false
+		packages.Visit(pkgs, nil, func(p *packages.Package) {
+			for _, e := range p.Errors {
+				if nerr < 20 {
+					fmt.Fprintf(os.Stderr, "HARNESS-BROKEN %s\n", e)
+				}
+				nerr++
+				file := e.Pos
+				if k := strings.Index(file, ":"); k > 0 {
+					file = file[:k]
+				}
+				if _, isHarness := overlay[file]; isHarness && filepath.Base(file) != "zz_verif_base.go" && filepath.Base(file) != "zz_verif_eval.go" {
+					brokenNow[file] = true
+				} else {
+					foreign = true
+				}
+			}
+		})
+		if nerr == 0 {
+			break
+		}
+		if len(brokenNow) == 0 || (foreign && attempt > 0) || attempt > 4 {
+			fail(fmt.Errorf("package load: %d errors", nerr))
+		}
+		for f := range brokenNow {
+			delete(overlay, f)
+			rep.BrokenFiles = append(rep.BrokenFiles, filepath.Base(f))
+		}
 	}
 	prog, spkgs := ssautil.AllPackages(pkgs, ssa.InstantiateGenerics)
 	prog.Build()
